@@ -67,6 +67,7 @@ def check(c: Check):
     # the anchor of one phase to the same instruction of every other phase)
     clause_j(c)
     clause_k(c)
+    clause_l(c)
     check_no_shared_class_state(c, 'C20-i', ['exactly_lib.definitions', 'exactly_lib.help', 'exactly_lib.cli.program_modes.help',
                                              'exactly_lib.common.help', 'exactly_lib.util.textformat'], 300,
                                 'a target or text made for one section / entity is handed out for the others')
@@ -1007,3 +1008,45 @@ def clause_k(c: Check):
                      'its anchor exists more than once' if len(sites) > 1 else 'every link to it is dead'),
                  sites[0] if sites else enum_cls.loc())
     c.floor('C20-k', 'sections with a predefined part as fixed root target', n_sites, 4)
+
+
+# ---------------------------------------------------------------- l
+def clause_l(c: Check):
+    """TS `help PHASE NAME` / `help suite SECTION NAME`: when NAME is not an instruction of that phase / section (the
+    lookup in the instruction set of THAT phase fails) the request fails - it is never answered with something found
+    elsewhere (the help would list, for a phase, an instruction the phase does not accept)."""
+    ix, fo = c.ix, c.fo
+    AP = 'exactly_lib.cli.program_modes.help.argument_parsing'
+    P = ix.cls(AP + ':Parser')
+    he = ix.cls(AP + ':HelpError') if ix.try_lookup(AP + ':HelpError') is not None else None
+    if he is None:
+        d = ix.resolve_static(ix.module(AP), None, ast.parse('HelpError', mode='eval').body)
+        he = d if isinstance(d, ClassDef) else None
+    c.require(he is not None, 'C20-l: HelpError not found')
+    lookup_names = ('lookup_argument__dict', 'lookup_argument')
+    n = 0
+    for mname in ('_parse_instruction_in_phase', '_parse_suite_help'):
+        m = ix.class_member(P, mname)
+        c.require(isinstance(m, FuncDef), 'C20-l: Parser.%s not found' % mname)
+
+        class H(Hooks):
+            loop_bound = 1
+
+            def inline(self, fd, st):
+                return False
+
+            def may_raise(self, callee_def, node, st):
+                if isinstance(callee_def, FuncDef) and callee_def.name in lookup_names:
+                    return [he]
+                return []
+
+        it = Interp(ix, fo, H())
+        for p in it.run_function(m, {}):
+            raised_by_lookup = any(e.kind == 'raised' for e in p.trace)
+            if not raised_by_lookup:
+                continue
+            n += 1
+            c.expect(p.kind == 'raise', 'C20-l', '%s/unknown-name-fails' % mname,
+                     'when the name is not found in the instruction set of the phase / section the request is answered '
+                     'with %s instead of failing' % (util.describe(p.val) if p.kind == 'return' else p.kind), m.loc())
+    c.floor('C20-l', 'paths with a failed lookup in the phase / section', n, 1)
